@@ -40,9 +40,12 @@ def apply_mutant(d, m):
     name, props, rel, old, new = m
     path = os.path.join(d, 'pytableaux', rel)
     s = open(path).read()
-    if s.count(old) != 1:
-        raise SystemExit(f'mutant {name}: pattern found {s.count(old)} times in {rel}')
-    open(path, 'w').write(s.replace(old, new))
+    pairs = old if new is None else [(old, new)]
+    for o, n in pairs:
+        if s.count(o) != 1:
+            raise SystemExit(f'mutant {name}: pattern found {s.count(o)} times in {rel}')
+        s = s.replace(o, n)
+    open(path, 'w').write(s)
 
 
 def apply_patch(d, patch):
